@@ -395,3 +395,341 @@ Proof.
     rewrite (skipn_before _ _ _ E). apply ret_cstr. apply (nul_free_after _ _ _ Hb E).
   - rewrite strdup0 by assumption. cbn [bind]. apply ret_cstr. assumption.
 Qed.
+
+(* ------------------------------------------------------------------------- *)
+(* 5. xmpp_jid_new                                                           *)
+(* ------------------------------------------------------------------------- *)
+
+Lemma memcpy_str : forall pre s t k doff,
+  length pre = doff ->
+  m_memcpy (map Some pre ++ alloc (length s + k)) doff (mem s t) 0 (length s) =
+  Some (map Some (pre ++ s) ++ alloc k).
+Proof.
+  intros pre s t k doff H.
+  rewrite memcpy_alloc by (rewrite ?map_length, ?mem_length; lia).
+  cbn [skipn]. rewrite firstn_mem by lia. rewrite firstn_all, map_app, app_assoc. reflexivity.
+Qed.
+
+Lemma memcpy_str0 : forall s t k,
+  m_memcpy (alloc (length s + k)) 0 (mem s t) 0 (length s) = Some (map Some s ++ alloc k).
+Proof. intros. apply (memcpy_str [] s t k 0%nat). reflexivity. Qed.
+
+Lemma store_str : forall pre k off v,
+  length pre = off ->
+  m_store (map Some pre ++ alloc (1 + k)) off v = Some (map Some (pre ++ [v]) ++ alloc k).
+Proof.
+  intros pre k off v H. change (alloc (1 + k)) with (@None Z :: alloc k).
+  rewrite store_at by (rewrite map_length; assumption).
+  rewrite map_app, <- app_assoc. reflexivity.
+Qed.
+
+Lemma ret_built : forall w, nul_free w ->
+  oret (Some (Some (map Some (w ++ [0]) ++ alloc 0))) = JStr w.
+Proof.
+  intros w H. rewrite map_app. cbn [map alloc repeat]. rewrite app_nil_r.
+  change (map Some w ++ [Some 0]) with (mem w []). cbn [oret].
+  rewrite string_mem by assumption. reflexivity.
+Qed.
+
+Lemma gtb_max : forall a m, (a >? m) = negb (a <=? m).
+Proof. intros. destruct (a >? m) eqn:E1, (a <=? m) eqn:E2; cbn [negb]; lia. Qed.
+
+Lemma gtb_max1 : forall l m, (Z.of_nat (l + 1) >? m + 1) = negb (Z.of_nat l <=? m).
+Proof. intros. destruct (Z.of_nat (l + 1) >? m + 1) eqn:E1, (Z.of_nat l <=? m) eqn:E2; cbn [negb]; lia. Qed.
+
+Lemma gtb_zero : (Z.of_nat 0 >? spec_part_max + 1) = false.
+Proof. reflexivity. Qed.
+
+Ltac lenside := rewrite ?app_length, ?map_length; cbn [length]; lia.
+Ltac chain :=
+  repeat (first [ rewrite memcpy_str0
+                | rewrite memcpy_str by lenside
+                | rewrite store_str by lenside ]; cbn [bind]).
+
+Lemma nul_free_join : forall n d r,
+  nul_free_opt n -> nul_free d -> nul_free_opt r -> nul_free (spec_join n d r).
+Proof.
+  intros n d r Hn Hd Hr. unfold spec_join.
+  apply nul_free_app. split.
+  - destruct n as [n|]; [|intros []]. apply nul_free_app. split; [exact Hn|].
+    apply nul_free_cons. split; [apply AT_nz | intros []].
+  - apply nul_free_app. split; [exact Hd|].
+    destruct r as [r|]; [|intros []]. apply nul_free_cons. split; [apply SLASH_nz | exact Hr].
+Qed.
+
+Lemma jid_new_eq : forall n d r,
+  nul_free_opt n -> nul_free d -> nul_free_opt r ->
+  jid_new n (Some d) r =
+  if spec_new_ok n (Some d) r then JStr (spec_join n d r) else JNull.
+Proof.
+  intros n d r Hn Hd Hr.
+  pose proof (nul_free_join n d r Hn Hd Hr) as Hj.
+  unfold jid_new, spec_new_ok, len_ok, zlen.
+  rewrite dlen_max_eq, nlen_max_eq, rlen_max_eq, forbidden_eq, new_at_eq, new_slash_eq.
+  rewrite !cstr_mem. rewrite strlen_mem by assumption. cbn [bind].
+  rewrite gtb_max.
+  destruct n as [n|]; destruct r as [r|]; cbn [nul_free_opt] in *;
+    rewrite ?cstr_mem; rewrite ?strlen_mem by assumption; cbn [bind];
+    rewrite ?gtb_max1, ?gtb_zero.
+  - (* node, resource *)
+    destruct (Z.of_nat (length d) <=? spec_part_max); cbn [negb andb]; [|reflexivity].
+    destruct (Z.of_nat (length n) <=? spec_part_max); cbn [negb andb]; [|reflexivity].
+    destruct (Z.of_nat (length r) <=? spec_part_max); cbn [negb andb]; [|reflexivity].
+    rewrite strcspn_mem by assumption. cbn [bind]. rewrite !Nat.add_sub, span_full.
+    change (forallb _ n) with (local_ok n).
+    destruct (local_ok n); cbn [negb]; [|reflexivity].
+    replace (length n + 1 + length d + (length r + 1) + 1)%nat
+      with (length n + (1 + (length d + (1 + (length r + (1 + 0))))))%nat by lia.
+    chain.
+    rewrite ret_built; [f_equal; unfold spec_join; rewrite <- ?app_assoc; reflexivity|].
+    revert Hj. unfold spec_join. rewrite <- ?app_assoc. exact (fun x => x).
+  - (* node only *)
+    destruct (Z.of_nat (length d) <=? spec_part_max); cbn [negb andb]; [|reflexivity].
+    destruct (Z.of_nat (length n) <=? spec_part_max); cbn [negb andb]; [|reflexivity].
+    rewrite strcspn_mem by assumption. cbn [bind]. rewrite !Nat.add_sub, span_full.
+    change (forallb _ n) with (local_ok n).
+    destruct (local_ok n); cbn [negb]; [|reflexivity].
+    replace (length n + 1 + length d + 0 + 1)%nat
+      with (length n + (1 + (length d + (1 + 0))))%nat by lia.
+    replace (length n + 1 + length d + 0)%nat with (length n + 1 + length d)%nat by lia.
+    chain.
+    rewrite ret_built; [f_equal; unfold spec_join; rewrite <- ?app_assoc, ?app_nil_r; reflexivity|].
+    revert Hj. unfold spec_join. rewrite <- ?app_assoc, ?app_nil_r. exact (fun x => x).
+  - (* resource only *)
+    destruct (Z.of_nat (length d) <=? spec_part_max); cbn [negb andb]; [|reflexivity].
+    destruct (Z.of_nat (length r) <=? spec_part_max); cbn [negb andb]; [|reflexivity].
+    rewrite !Nat.add_sub. cbn [Nat.add].
+    replace (length d + (length r + 1) + 1)%nat
+      with (length d + (1 + (length r + (1 + 0))))%nat by lia.
+    chain.
+    rewrite ret_built; [f_equal; unfold spec_join; cbn [app]; rewrite <- ?app_assoc; reflexivity|].
+    revert Hj. unfold spec_join. cbn [app]. rewrite <- ?app_assoc. exact (fun x => x).
+  - (* domain only *)
+    destruct (Z.of_nat (length d) <=? spec_part_max); cbn [negb andb]; [|reflexivity].
+    cbn [Nat.add].
+    replace (length d + 0 + 1)%nat with (length d + (1 + 0))%nat by lia.
+    replace (length d + 0)%nat with (length d) by lia.
+    chain.
+    rewrite ret_built; [f_equal; unfold spec_join; cbn [app]; rewrite ?app_nil_r; reflexivity|].
+    revert Hj. unfold spec_join. cbn [app]. rewrite ?app_nil_r. exact (fun x => x).
+Qed.
+
+(* ------------------------------------------------------------------------- *)
+(* 6. The property statements                                                *)
+(* ------------------------------------------------------------------------- *)
+
+Lemma spec_bare_resource : forall j,
+  spec_bare j ++ (match spec_resource j with Some r => SLASH :: r | None => [] end) = j.
+Proof.
+  intros j. unfold spec_bare, spec_resource.
+  destruct (after SLASH j) as [r|] eqn:E.
+  - symmetry. apply after_split. exact E.
+  - rewrite (after_none_before _ _ E). apply app_nil_r.
+Qed.
+
+Lemma spec_node_domain : forall j,
+  (match spec_node j with Some n => n ++ [AT] | None => [] end) ++ spec_domain j = spec_bare j.
+Proof.
+  intros j. unfold spec_node, spec_domain.
+  destruct (after AT (spec_bare j)) as [d|] eqn:E.
+  - rewrite <- app_assoc. cbn [app]. symmetry. apply after_split. exact E.
+  - reflexivity.
+Qed.
+
+Lemma spec_parts_rebuild : forall j,
+  spec_join (spec_node j) (spec_domain j) (spec_resource j) = j.
+Proof.
+  intros j. unfold spec_join. rewrite app_assoc, spec_node_domain. apply spec_bare_resource.
+Qed.
+
+(* joining the returned parts reproduces the string *)
+Lemma parts_rebuild : forall j, nul_free j ->
+  exists n d r,
+    jid_node j = ostr n /\ jid_domain j = JStr d /\ jid_resource j = ostr r /\
+    spec_join n d r = j.
+Proof.
+  intros j H. exists (spec_node j), (spec_domain j), (spec_resource j).
+  repeat split.
+  - apply jid_node_eq; assumption.
+  - apply jid_domain_eq; assumption.
+  - apply jid_resource_eq; assumption.
+  - apply spec_parts_rebuild.
+Qed.
+
+(* the bare JID is the string without its resource *)
+Lemma bare_is_prefix : forall j, nul_free j ->
+  exists b,
+    jid_bare j = JStr b /\
+    ((jid_resource j = JNull /\ b = j) \/
+     (exists r, jid_resource j = JStr r /\ b ++ SLASH :: r = j)).
+Proof.
+  intros j H. exists (spec_bare j). split; [apply jid_bare_eq; assumption|].
+  rewrite (jid_resource_eq j H). pose proof (spec_bare_resource j) as E.
+  destruct (spec_resource j) as [r|]; cbn [ostr].
+  - right. exists r. split; [reflexivity | exact E].
+  - left. split; [reflexivity|]. rewrite app_nil_r in E. exact E.
+Qed.
+
+(* the resource is everything after the first '/', and there is none without a '/' *)
+Lemma resource_after_first_slash : forall j, nul_free j ->
+  (forall p r, j = p ++ SLASH :: r -> ~ In SLASH p -> jid_resource j = JStr r) /\
+  (~ In SLASH j -> jid_resource j = JNull).
+Proof.
+  intros j H. rewrite (jid_resource_eq j H). unfold spec_resource. split.
+  - intros p r -> Hp. rewrite after_app by assumption. reflexivity.
+  - intros Hn. rewrite after_notin by assumption. reflexivity.
+Qed.
+
+(* b is what precedes the first '/' of j (all of j if there is none) *)
+Definition bare_part (j b : list Z) : Prop :=
+  (~ In SLASH j /\ b = j) \/ (exists r, j = b ++ SLASH :: r /\ ~ In SLASH b).
+
+Lemma bare_part_spec : forall j b, bare_part j b -> spec_bare j = b.
+Proof.
+  intros j b [[Hn ->]|[r [-> Hb]]]; unfold spec_bare.
+  - apply before_id. assumption.
+  - apply before_app. assumption.
+Qed.
+
+(* the node is everything before the first '@' of the part before the first '/', the
+   domain what follows that '@'; without an '@' there is no node and that part is the domain *)
+Lemma node_before_first_at : forall j b, nul_free j -> bare_part j b ->
+  jid_bare j = JStr b /\
+  (forall n d, b = n ++ AT :: d -> ~ In AT n -> jid_node j = JStr n /\ jid_domain j = JStr d) /\
+  (~ In AT b -> jid_node j = JNull /\ jid_domain j = JStr b).
+Proof.
+  intros j b H Hb. apply bare_part_spec in Hb.
+  rewrite (jid_bare_eq j H), (jid_node_eq j H), (jid_domain_eq j H).
+  unfold spec_node, spec_domain. rewrite Hb. split; [reflexivity|]. split.
+  - intros n d -> Hn. rewrite after_app, before_app by assumption. split; reflexivity.
+  - intros Hn. rewrite after_notin by assumption. split; reflexivity.
+Qed.
+
+(* splitting an address built from well-formed parts *)
+Lemma spec_split_join : forall n d r,
+  chars_free [SLASH; AT] n -> ~ In SLASH d -> ~ In AT d ->
+  spec_bare (spec_join n d r) = spec_join n d None /\
+  spec_resource (spec_join n d r) = r /\
+  spec_node (spec_join n d r) = n /\
+  spec_domain (spec_join n d r) = d.
+Proof.
+  intros n d r Hn Hd1 Hd2.
+  assert (Hpre : ~ In SLASH ((match n with Some n => n ++ [AT] | None => [] end) ++ d)).
+  { rewrite in_app_iff. intros [Hi|Hi]; [|exact (Hd1 Hi)].
+    destruct n as [l|]; [|exact Hi]. apply in_app_iff in Hi. destruct Hi as [Hi|Hi].
+    - apply (Hn _ Hi). left. reflexivity.
+    - destruct Hi as [Hi|[]]. discriminate Hi. }
+  assert (Hb : spec_bare (spec_join n d r) = spec_join n d None).
+  { unfold spec_bare, spec_join. rewrite !app_assoc. rewrite app_nil_r.
+    destruct r as [r|].
+    - apply before_app. exact Hpre.
+    - rewrite app_nil_r. apply before_id. exact Hpre. }
+  split; [exact Hb|]. split.
+  - unfold spec_resource, spec_join. rewrite !app_assoc. destruct r as [r|].
+    + apply after_app. exact Hpre.
+    + rewrite app_nil_r. apply after_notin. exact Hpre.
+  - unfold spec_node, spec_domain. rewrite Hb. unfold spec_join. rewrite app_nil_r.
+    destruct n as [l|].
+    + assert (Hl : ~ In AT l) by (intro Hi; apply (Hn _ Hi); right; left; reflexivity).
+      rewrite <- app_assoc. cbn [app]. rewrite after_app, before_app by assumption.
+      split; reflexivity.
+    + cbn [app]. rewrite after_notin by assumption. split; reflexivity.
+Qed.
+
+Lemma local_ok_free : forall l,
+  (forall c, In c l -> ~ In c spec_forbidden) -> local_ok l = true.
+Proof.
+  intros l H. unfold local_ok. apply forallb_forall. intros c Hc.
+  destruct (is_forbidden c) eqn:E; [|reflexivity]. exfalso.
+  unfold is_forbidden in E. apply existsb_exists in E. destruct E as [x [Hx Ex]].
+  apply Z.eqb_eq in Ex. subst x. exact (H c Hc Hx).
+Qed.
+
+Lemma local_ok_bad : forall l c, In c l -> In c spec_forbidden -> local_ok l = false.
+Proof.
+  intros l c Hc Hf. destruct (local_ok l) eqn:E; [|reflexivity]. exfalso.
+  unfold local_ok in E. rewrite forallb_forall in E. specialize (E c Hc).
+  assert (is_forbidden c = true) as Ef.
+  { unfold is_forbidden. apply existsb_exists. exists c. split; [exact Hf | apply Z.eqb_refl]. }
+  rewrite Ef in E. discriminate.
+Qed.
+
+Lemma len_ok_le : forall o, opt_len_le o 1023 -> len_ok o = true.
+Proof. intros [s|] H; cbn [len_ok opt_len_le] in *; [|reflexivity]. unfold spec_part_max. lia. Qed.
+
+Lemma len_ok_gt : forall o, opt_len_gt o 1023 -> len_ok o = false.
+Proof. intros [s|] H; cbn [len_ok opt_len_gt] in *; [|contradiction]. unfold spec_part_max. lia. Qed.
+
+Lemma new_split : forall n d r,
+  nul_free_opt n -> nul_free d -> nul_free_opt r ->
+  chars_free [34; 38; 39; 47; 58; 60; 62; 64] n ->
+  ~ In 47 d -> ~ In 64 d ->
+  opt_len_le n 1023 -> zlen d <= 1023 -> opt_len_le r 1023 ->
+  exists j,
+    jid_new n (Some d) r = JStr j /\ j = spec_join n d r /\
+    jid_node j = ostr n /\ jid_domain j = JStr d /\ jid_resource j = ostr r /\
+    jid_bare j = JStr (spec_join n d None).
+Proof.
+  intros n d r Hn Hd Hr Hf Hd1 Hd2 Ln Ld Lr.
+  exists (spec_join n d r).
+  pose proof (nul_free_join n d r Hn Hd Hr) as Hj.
+  assert (Hok : spec_new_ok n (Some d) r = true).
+  { unfold spec_new_ok. rewrite (len_ok_le n Ln), (len_ok_le r Lr), (len_ok_le (Some d) Ld).
+    cbn [andb]. destruct n as [l|]; [|reflexivity]. apply local_ok_free. exact Hf. }
+  assert (Hf2 : chars_free [SLASH; AT] n).
+  { destruct n as [l|]; [|exact I]. intros c Hc [E|[E|[]]]; apply (Hf c Hc); subst c.
+    - right; right; right; left; reflexivity.
+    - do 7 right; left; reflexivity. }
+  destruct (spec_split_join n d r Hf2 Hd1 Hd2) as [Sb [Sr [Sn Sd]]].
+  rewrite (jid_new_eq n d r Hn Hd Hr), Hok.
+  rewrite (jid_node_eq _ Hj), (jid_domain_eq _ Hj), (jid_resource_eq _ Hj), (jid_bare_eq _ Hj).
+  rewrite Sb, Sr, Sn, Sd. repeat split; reflexivity.
+Qed.
+
+Lemma new_refuses : forall n d r,
+  nul_free_opt n -> nul_free_opt d -> nul_free_opt r ->
+  d = None \/
+  (exists l c, n = Some l /\ In c l /\ In c [34; 38; 39; 47; 58; 60; 62; 64]) \/
+  opt_len_gt n 1023 \/ opt_len_gt d 1023 \/ opt_len_gt r 1023 ->
+  jid_new n d r = JNull.
+Proof.
+  intros n d r Hn Hd Hr H.
+  destruct d as [d|]; [|reflexivity].
+  rewrite (jid_new_eq n d r Hn Hd Hr).
+  replace (spec_new_ok n (Some d) r) with false; [reflexivity|]. symmetry.
+  unfold spec_new_ok.
+  destruct H as [H|[H|[H|[H|H]]]].
+  - discriminate H.
+  - destruct H as [l [c [-> [Hc Hf]]]]. rewrite (local_ok_bad l c Hc Hf). apply andb_false_r.
+  - rewrite (len_ok_gt n H). rewrite andb_false_r. reflexivity.
+  - rewrite (len_ok_gt (Some d) H). reflexivity.
+  - rewrite (len_ok_gt r H). rewrite andb_false_r. reflexivity.
+Qed.
+
+(* complete description of xmpp_jid_new on C strings *)
+Lemma new_decides : forall n d r,
+  nul_free_opt n -> nul_free_opt d -> nul_free_opt r ->
+  jid_new n d r =
+  match d with
+  | Some dd => if spec_new_ok n d r then JStr (spec_join n dd r) else JNull
+  | None => JNull
+  end.
+Proof.
+  intros n [d|] r Hn Hd Hr; [|reflexivity]. apply jid_new_eq; assumption.
+Qed.
+
+(* the model never leaves a block and never reads an unwritten cell *)
+Lemma no_oob : forall j, nul_free j ->
+  jid_bare j <> JOOB /\ jid_node j <> JOOB /\ jid_domain j <> JOOB /\ jid_resource j <> JOOB.
+Proof.
+  intros j H.
+  rewrite (jid_bare_eq j H), (jid_node_eq j H), (jid_domain_eq j H), (jid_resource_eq j H).
+  repeat split; try discriminate; [destruct (spec_node j) | destruct (spec_resource j)]; discriminate.
+Qed.
+
+Lemma new_no_oob : forall n d r,
+  nul_free_opt n -> nul_free_opt d -> nul_free_opt r -> jid_new n d r <> JOOB.
+Proof.
+  intros n d r Hn Hd Hr. rewrite (new_decides n d r Hn Hd Hr).
+  destruct d; [destruct (spec_new_ok _ _ _)|]; discriminate.
+Qed.
